@@ -23,7 +23,9 @@ ChildInteg(n) == IF n = 1 THEN "sha1" ELSE "sha256"
 
 \* the datagram term for provenance (h, b, i, sk); w(k) = reference to the wire of the k-th sent datagram
 DatagramTerm(w(_), il, h, b, i, sk) ==
-  IF ~sk THEN OverwriteT(w(b), 16, << 41 >>)
+  IF h = 0 /\ b = 0 /\ i = 0 THEN      \* made-up octets that present an Encrypted payload with consistent lengths (76 octets)
+    Cat(<< FillT("seeded", 16, 3), Lit(<< 46, 32, 37, 8, 0, 0, 0, 1, 0, 0, 0, 76, 0, 0, 0, 48 >>), FillT("seeded", 44, 9) >>)
+  ELSE IF ~sk THEN OverwriteT(w(b), 16, << 41 >>)
   ELSE IF h = b /\ b = i THEN w(b)
   ELSE IF h = 0 /\ b = i THEN Flip(w(b), 3, 0)
   ELSE IF b = 0 /\ i = 0 THEN DropEnd(w(h), 5)
